@@ -1,2 +1,75 @@
-import NSG.Model.Coord
-/-! # C07 (theorems under construction) -/
+import NSG.Lemmas.CoordTrace
+/-! # C07 — reset is collective, voluntary and gives every agent a fresh episode -/
+namespace NSG.Coord
+open NSG NSG.Defender
+
+/-- **Voluntary.** Background steps never reset an agent that has not asked: as long as its request
+flag is down, view, step counter and ended flag stay exactly as they were (the `reset` micro-step
+carries the guard `resetReq = true`, established in `bg_resetTask` from the consensus test). -/
+theorem C07_frame_bstep (S : Settings) (a b : Agent) (hs : BStep S a b) (hr : a.resetReq = false) :
+    b.view = a.view ∧ b.steps = a.steps ∧ b.ended = a.ended ∧ b.resetReq = false ∧ b.role = a.role ∧ b.name = a.name := by
+  induction hs with
+  | refl a => exact ⟨rfl, rfl, rfl, hr, rfl, rfl⟩
+  | pay a sa =>
+    refine ⟨?_, ?_, ?_, ?_, ?_, ?_⟩ <;> (unfold payOne; split <;> (try simp [hr]); split <;> (try simp [hr]); split <;> simp [hr])
+  | record a act => exact ⟨rfl, rfl, rfl, hr, rfl, rfl⟩
+  | reset a v hq => rw [hr] at hq; cases hq
+  | restart a => exact ⟨rfl, rfl, rfl, hr, rfl, rfl⟩
+  | trans _ _ ih1 ih2 =>
+    obtain ⟨h1, h2, h3, h4, h5, h6⟩ := ih1 hr
+    obtain ⟨g1, g2, g3, g4, g5, g6⟩ := ih2 h4
+    exact ⟨g1.trans h1, g2.trans h2, g3.trans h3, g4, g5.trans h5, g6.trans h6⟩
+
+/-- Whatever *another* connection sends or does (any message, a departure, a connect), an agent
+that has not asked for a reset keeps its view, its step counter and its episode status. -/
+theorem C07_voluntary (S : Settings) (s : St) (e : Ev) (d : Nat) (a a' : Agent)
+    (hne : sender e ≠ some d) (ha : s.agents d = some a) (hr : a.resetReq = false)
+    (ha' : (deliver S s e).1.agents d = some a') :
+    a'.view = a.view ∧ a'.steps = a.steps ∧ a'.ended = a.ended ∧ a'.resetReq = false := by
+  rcases deliver_trace S s e d a' ha' with ⟨a0, ha0, hb⟩ | ⟨hs, _⟩ | ⟨hs, _⟩
+  · rw [ha] at ha0; cases ha0
+    obtain ⟨h1, h2, h3, h4, _, _⟩ := C07_frame_bstep S a a' hb hr
+    exact ⟨h1, h2, h3, h4⟩
+  · exact absurd hs hne
+  · exact absurd hs hne
+
+/-- **Collective.** The reset task is started only on consensus: `settle` receives `resetEv = true`
+only together with "every agent in the game has asked" - from the request handler ... -/
+theorem C07_consensus_request (s : St) (c : Nat) :
+    (s.updAgent c (fun ag => { ag with resetReq := true })).allReset = true →
+    ∀ d ∈ s.ids, ((s.updAgent c (fun ag => { ag with resetReq := true })).agent d).resetReq = true := by
+  intro h d hd; exact (allReset_iff _).1 h d hd
+
+/-- ... and from the removal routine (a departure): only if somebody remains and all who remain asked. -/
+theorem C07_consensus_departure (s : St) (c : Nat) (h : (removeAgent s c).2.2 = true) :
+    (removeAgent s c).1.ids ≠ [] ∧ ∀ d ∈ (removeAgent s c).1.ids, ((removeAgent s c).1.agent d).resetReq = true := by
+  unfold removeAgent at h ⊢
+  split at h
+  · simp only [Bool.and_eq_true, Bool.not_eq_true', List.isEmpty_eq_false_iff] at h
+    rename_i hin
+    simp only [hin, if_true]
+    exact ⟨h.1, (allReset_iff _).1 h.2⟩
+  · simp at h
+
+/-- **Fresh.** What the reset gives each agent: the view the world built for its start position, zero
+reward, end = false, counter 0 (so the whole step budget is available again), request flag cleared. -/
+theorem C07_fresh (v : View) (a : Agent) :
+    (resetOne v a).view = v ∧ (resetOne v a).obs = { view := v, reward := 0, ended := false, reason := none } ∧
+    (resetOne v a).steps = 0 ∧ (resetOne v a).ended = false ∧ (resetOne v a).resetReq = false ∧
+    (resetOne v a).status = startStatus a.role ∧ (resetOne v a).reward = 0 := by
+  simp [resetOne]
+
+/-- after a reset the agent can play exactly `max_steps` actions again before the step limit triggers -/
+theorem C07_budget (S : Settings) (v : View) (a : Agent) (n : Nat) (hn : S.maxSteps a.role = some (n + 1)) (k : Nat) :
+    isTimeout S (resetOne v a).role ((resetOne v a).steps + k) = decide (n + 1 ≤ k) := by
+  simp [resetOne, isTimeout, hn]
+
+/-- RESET_DONE: carries the stored (fresh) observation, the trajectory of the episode just finished
+iff it was requested, and recording starts anew from the current view. -/
+theorem C07_reset_done (S : Settings) (s : St) (c : Nat) (t : Bool) (ag : Agent) (hin : s.agents c = some ag) (hm : s.mute c = false) :
+    (finishReset S s c t).2 = [.reply c { code := .resetDone, obs := some ag.obs, maxSteps := some (S.maxSteps ag.role),
+                                            traj := if t then some (ag.trajInit, ag.traj) else none }] ∧
+    (finishReset S s c t).1.agents c = some (restartTraj ag) ∧ (restartTraj ag).traj = [] ∧ (restartTraj ag).trajInit = ag.view := by
+  simp [finishReset, emit, hm, St.agent, hin, St.updAgent, St.setConn, restartTraj]
+
+end NSG.Coord
